@@ -237,6 +237,48 @@ def _closes_response_unread(fn):
     return scan(fn.body[fn.body.index(t) + 1:], False)[0]
 
 
+_BODY_READERS = ("read", "read1", "readline", "readlines", "readinto", "readinto1", "peek")
+
+
+def _error_body_unused(fn):
+    """single_request never USES the bytes of a reply body itself: every `<response>.read…()` call is a statement of its
+    own (the value is dropped) or is assigned to a name that is never read afterwards.  (The 200 path hands the response
+    object to parse_response, which is not a read here.)  True also when there is no such call at all."""
+    resp = _response_names(fn)
+    if not resp:
+        return None
+    al = _aliases(fn)
+
+    def is_body_read(call):
+        if not (isinstance(call, ast.Call) and isinstance(call.func, ast.Attribute) and call.func.attr in _BODY_READERS):
+            return False
+        obj = call.func.value
+        if isinstance(obj, ast.Name) and obj.id in resp:
+            return True
+        obj = _resolve(obj, al)
+        return isinstance(obj, ast.Name) and obj.id in resp
+
+    reads = [n for n in ast.walk(fn) if is_body_read(n)]
+    dropped = set()
+    bound = set()
+    for st in ast.walk(fn):
+        if isinstance(st, ast.Expr) and any(st.value is r for r in reads):
+            dropped.add(id(st.value))
+        elif isinstance(st, ast.Assign) and any(st.value is r for r in reads) \
+                and all(isinstance(t, ast.Name) for t in st.targets):
+            dropped.add(id(st.value))
+            bound.update(t.id for t in st.targets)
+        elif isinstance(st, ast.AnnAssign) and any(st.value is r for r in reads) and isinstance(st.target, ast.Name):
+            dropped.add(id(st.value))
+            bound.add(st.target.id)
+    if any(id(r) not in dropped for r in reads):
+        return False
+    for n in ast.walk(fn):
+        if isinstance(n, ast.Name) and n.id in bound and isinstance(n.ctx, ast.Load):
+            return False
+    return True
+
+
 def _raises_transport_error(fn):
     """After the exchange, the function ends by raising TransportError(host + handler, <response>.status, …)."""
     al = _aliases(fn)
@@ -304,6 +346,7 @@ def facts(src):
     e = _closes_when_no_length(sr) if sr is not None else None
     f = _raises_transport_error(sr) if sr is not None else None
     g = _closes_response_unread(sr) if sr is not None else None
+    h = _error_body_unused(sr) if sr is not None else None
     return [
         Fact("singleRequestClosesOnError", "Bool", None if a is None else lean_bool(a), ["C19"],
              "single_request closes the cached connection and re-raises on any exception of the exchange (send, getresponse, parse)",
@@ -321,6 +364,9 @@ def facts(src):
         Fact("singleRequestClosesResponseUnread", "Bool", None if g is None else lean_bool(g), ["C19"],
              "the non-200 path of single_request closes the response object without having read it (the connection then looks "
              "idle to http.client while bytes of that exchange may still arrive on it)", json_value=g),
+        Fact("singleRequestErrorBodyUnused", "Bool", None if h is None else lean_bool(h), ["C19"],
+             "single_request drops the bytes it reads from a reply body (the drain of a non-200 reply): they reach no call, no "
+             "return value, no exception - whatever an error body holds cannot influence the outcome", json_value=h),
         Fact("runRequestEmptyBodyNone", "Bool", None if c is None else lean_bool(c), ["C19"],
              "_run_request returns None for an empty body", json_value=c),
     ]
